@@ -219,7 +219,7 @@ pub fn check(c: &Case) -> Verdict {
 fn run(ctx: &Ctx) {
     ctx.run_regress::<Case, _>(check);
     let p = DocParams::skipping();
-    let ndocs = ctx.tier.pick(4000usize, 60_000);
+    let ndocs = ctx.tier.pick(12_000usize, 100_000);
     let docs: Vec<Doc> = sample_strategy(&doc_strategy(&p), ctx.seed ^ 0x12, ndocs);
     ctx.run_groups(
         "every-start-event-of-sampled-documents",
@@ -242,7 +242,7 @@ fn run(ctx: &Ctx) {
         check,
     );
     // failure path: every truncation point after the chosen start tag, for a sample of documents
-    let nt = ctx.tier.pick(300usize, 5000);
+    let nt = ctx.tier.pick(1000usize, 10_000);
     ctx.run_groups(
         "truncated-at-every-byte",
         nt.min(docs.len()) as u64,
@@ -260,7 +260,7 @@ fn run(ctx: &Ctx) {
         check,
     );
     let strat = move || Box::new((doc_strategy(&p), any::<u16>(), 0u8..128, 0u8..4, 0u8..6, prop::option::weighted(0.3, any::<u16>())).prop_map(|(doc, target, cfg, variant, piece, truncate)| Case { doc, target, cfg, variant, piece, truncate }));
-    ctx.run_proptest_with("documents-x-random-start", ctx.tier.pick(200_000, 3_000_000), strat, check);
+    ctx.run_proptest_with("documents-x-random-start", ctx.tier.pick(600_000, 5_000_000), strat, check);
 }
 
 fn replay(_stage: &str, case: &Value) -> Result<Verdict, String> {
